@@ -1,7 +1,1409 @@
-//! C17 — stub (monitor not built yet)
-use crate::run::{Ctx, Report, Stats};
-pub fn run(_ctx: &Ctx) -> Report {
-    let mut r = Report::new(Stats::default(), "not built");
-    r.inconclusive.push("monitor-not-built".into());
-    r
+//! C17 — Newton: success means a root; bounded work; failure reported; state untouched.
+//!
+//! Six entry points are monitored: `Newton<f64>::solve`, `Newton<Cmplx>::solve`,
+//! `Newton<Vec64>::{solve, solve_jacobian}`, `Newton<Vector<Cmplx>>::{solve, solve_jacobian}`.
+//!
+//! Every case goes through the same generic judge (`judge`):
+//!  * termination and evaluation bounds (closures count calls; a call count far above the bound
+//!    aborts the run through a `StepBudget` payload and is reported as an eval-bound violation);
+//!  * state: `parameters()` bit-identical before/after (scalar kinds; the vector kinds have no
+//!    `parameters()` because `Vector` is not `Copy`), second `solve` on the same object gives the
+//!    bit-identical result and the identical sequence of evaluation points;
+//!  * limit 0 => `Err(guess)` bit-exact with zero evaluations;
+//!  * metamorphic chain in the iteration limit: if limit k gives `Ok(x)` then limit k+1 gives the
+//!    identical `Ok(x)`; if limit k gives `Err(x_k)` then limit k+1 gives `Ok`/`Err` according to the
+//!    stopping criterion evaluated by an independent model on x_k, carrying (up to rounding) one
+//!    model Newton step applied to x_k. By induction from limit 0 this pins "Err carries the last
+//!    iterate" and "Ok iff the criterion was met";
+//!  * for generated functions with planted simple roots and a Newton-Kantorovich style certificate
+//!    (including finite-difference derivative error and evaluation noise): `Ok(x)` within the
+//!    certified number of iterations and x close to the root.
+use crate::fl::U;
+use crate::json::J;
+use crate::mon::common::*;
+use crate::rng::Rng;
+use crate::run::{catch, par_run, Ctx, Outcome, Report, Stats, StepBudget};
+use ohsl::{Cmplx, Mat64, Matrix, Newton, Vec64, Vector};
+use std::cell::{Cell, RefCell};
+use std::collections::BTreeMap;
+use std::rc::Rc;
+
+const TAG: u64 = 0xC17;
+
+// ------------------------------------------------------------------ fixed tolerances
+/// one-step comparison (library vs model step): |x_lib - x_model| <= REL*|dx| + ABS*|x|
+const STEP_REL_SCALAR: f64 = 1e-9;
+const STEP_REL_SYS: f64 = 1e-6;
+const STEP_ABS: f64 = 1e-12;
+/// the systems step comparison is only made when the model Jacobian has kappa_inf <= this
+const STEP_MAX_COND: f64 = 1e6;
+/// relative half-width of the zone around `tol` in which either verdict of the stopping test is accepted
+/// (never applies when the model criterion equals tol exactly)
+const CRIT_SLACK: f64 = 1e-12;
+/// success demand: dist <= max(ACC_TOL*tol, ACC_TOLM*tol/m1) + ACC_U*u*(1+|root|)*M1/m1 + root uncertainty
+const ACC_TOL: f64 = 10.0;
+const ACC_TOLM: f64 = 4.0;
+const ACC_U: f64 = 64.0;
+/// Kantorovich quantity demanded of the generated guess ball
+const H_MAX: f64 = 0.25;
+/// extra closure calls tolerated before the run is aborted (so that small excesses are reported with exact counts)
+const BUDGET_SLACK: u64 = 40;
+const KCAP: usize = 50;
+
+// ------------------------------------------------------------------ tiny complex arithmetic (independent of ohsl)
+type C2 = (f64, f64);
+#[inline] fn cadd(a: C2, b: C2) -> C2 { (a.0 + b.0, a.1 + b.1) }
+#[inline] fn csub(a: C2, b: C2) -> C2 { (a.0 - b.0, a.1 - b.1) }
+#[inline] fn cmul(a: C2, b: C2) -> C2 { (a.0 * b.0 - a.1 * b.1, a.0 * b.1 + a.1 * b.0) }
+#[inline] fn cdiv(a: C2, b: C2) -> C2 { let d = b.0 * b.0 + b.1 * b.1; ((a.0 * b.0 + a.1 * b.1) / d, (a.1 * b.0 - a.0 * b.1) / d) }
+#[inline] fn cscale(a: C2, s: f64) -> C2 { (a.0 * s, a.1 * s) }
+#[inline] fn cab(a: C2) -> f64 { a.0.hypot(a.1) }
+#[inline] fn cexp(a: C2) -> C2 { let e = a.0.exp(); (e * a.1.cos(), e * a.1.sin()) }
+#[inline] fn csin(a: C2) -> C2 { (a.0.sin() * a.1.cosh(), a.0.cos() * a.1.sinh()) }
+#[inline] fn ccos(a: C2) -> C2 { (a.0.cos() * a.1.cosh(), -(a.0.sin() * a.1.sinh())) }
+fn flat_c(v: &[C2]) -> Vec<f64> { let mut o = Vec::with_capacity(2 * v.len()); for z in v { o.push(z.0); o.push(z.1); } o }
+fn unflat_c(v: &[f64]) -> Vec<C2> { v.chunks(2).map(|c| (c[0], c[1])).collect() }
+fn to_cm(z: C2) -> Cmplx { Cmplx::new(z.0, z.1) }
+
+// ------------------------------------------------------------------ problems
+type FnR = Rc<dyn Fn(f64) -> f64>;
+type FnC = Rc<dyn Fn(C2) -> C2>;
+type FnSR = Rc<dyn Fn(&[f64]) -> Vec<f64>>;
+type JacSR = Rc<dyn Fn(&[f64]) -> Vec<Vec<f64>>>;
+type FnSC = Rc<dyn Fn(&[C2]) -> Vec<C2>>;
+type JacSC = Rc<dyn Fn(&[C2]) -> Vec<Vec<C2>>>;
+
+#[derive(Clone, Copy, PartialEq, Debug)]
+enum Kind { R, C, SR, SRJ, SC, SCJ }
+impl Kind {
+    fn site(self) -> &'static str { match self { Kind::SRJ | Kind::SCJ => "solve_jacobian", _ => "solve" } }
+    fn ty(self) -> &'static str { match self { Kind::R => "f64", Kind::C => "Cmplx", Kind::SR | Kind::SRJ => "Vec64", _ => "VecCmplx" } }
+    fn cplx(self) -> bool { matches!(self, Kind::C | Kind::SC | Kind::SCJ) }
+    fn scalar(self) -> bool { matches!(self, Kind::R | Kind::C) }
+    fn name(self) -> String { format!("{}:{}", self.site(), self.ty()) }
+}
+fn sig(k: Kind, mode: &str) -> String { format!("C17:{}:{}:{}", k.site(), k.ty(), mode) }
+
+enum Body {
+    R(FnR),
+    C(FnC),
+    SR(FnSR, Option<JacSR>),
+    SC(FnSC, Option<JacSC>),
+}
+struct Prob { name: String, n: usize, body: Body }
+impl Prob {
+    fn kind(&self) -> Kind {
+        match &self.body {
+            Body::R(_) => Kind::R,
+            Body::C(_) => Kind::C,
+            Body::SR(_, j) => if j.is_some() { Kind::SRJ } else { Kind::SR },
+            Body::SC(_, j) => if j.is_some() { Kind::SCJ } else { Kind::SC },
+        }
+    }
+    /// allowed evaluations of the function per iteration
+    fn per_iter(&self) -> u64 {
+        match self.kind() { Kind::R | Kind::C => 3, Kind::SR | Kind::SC => self.n as u64 + 2, _ => 1 }
+    }
+}
+
+/// configuration: tolerance, difference step, flat guess (complex numbers as re,im pairs)
+#[derive(Clone)]
+struct Cfg { tol: f64, delta: f64, guess: Vec<f64> }
+
+#[derive(Clone)]
+struct RunOut { ok: bool, x: Vec<f64>, fcalls: u64, jcalls: u64, log: Vec<u64> }
+#[derive(Clone)]
+enum LibRes { Done(RunOut), Panic(String), Budget(u64, u64), Other }
+
+fn bits(v: &[f64]) -> Vec<u64> { v.iter().map(|x| x.to_bits()).collect() }
+fn all_fin(v: &[f64]) -> bool { v.iter().all(|x| x.is_finite()) }
+/// inf-norm of a flat point (complex: max modulus)
+fn pnorm(v: &[f64], cplx: bool) -> f64 {
+    if cplx { v.chunks(2).fold(0.0f64, |m, c| m.max(c[0].hypot(c[1]))) } else { v.iter().fold(0.0f64, |m, x| m.max(x.abs())) }
+}
+fn pdist(a: &[f64], b: &[f64], cplx: bool) -> f64 {
+    if a.len() != b.len() { return f64::INFINITY; }
+    let d: Vec<f64> = a.iter().zip(b).map(|(x, y)| x - y).collect();
+    if d.iter().any(|x| x.is_nan()) { return f64::NAN; }
+    pnorm(&d, cplx)
+}
+
+fn finish<T>(o: Outcome<Result<T, T>>, flat: impl Fn(&T) -> Vec<f64>, fc: u64, jc: u64, log: Vec<u64>) -> LibRes {
+    match o {
+        Outcome::Ok(Ok(v)) => LibRes::Done(RunOut { ok: true, x: flat(&v), fcalls: fc, jcalls: jc, log }),
+        Outcome::Ok(Err(v)) => LibRes::Done(RunOut { ok: false, x: flat(&v), fcalls: fc, jcalls: jc, log }),
+        Outcome::Panic { msg, loc } => LibRes::Panic(format!("'{}' at {}", msg, loc)),
+        Outcome::Budget => LibRes::Budget(fc, jc),
+        Outcome::Overflow => LibRes::Other,
+    }
+}
+
+/// Build ONE Newton object and call the entry point once per element of `limits` (the limit is
+/// changed with `iterations()` between calls). Second component: description of a `parameters()` mismatch.
+fn run_lib(p: &Prob, cfg: &Cfg, limits: &[usize]) -> (Vec<LibRes>, Option<String>) {
+    let mut out = Vec::with_capacity(limits.len());
+    let mut pm: Option<String> = None;
+    let per = p.per_iter();
+    match &p.body {
+        Body::R(f) => {
+            let g = cfg.guess[0];
+            let mut nw = Newton::<f64>::new(g);
+            nw.tolerance(cfg.tol);
+            nw.delta(cfg.delta);
+            for &k in limits {
+                nw.iterations(k);
+                let calls = Cell::new(0u64);
+                let log = RefCell::new(Vec::<u64>::new());
+                let cap = per * k as u64 + BUDGET_SLACK;
+                let fw = |x: f64| -> f64 {
+                    let c = calls.get() + 1;
+                    calls.set(c);
+                    if c > cap { std::panic::panic_any(StepBudget); }
+                    log.borrow_mut().push(x.to_bits());
+                    f(x)
+                };
+                let want = (cfg.tol.to_bits(), cfg.delta.to_bits(), k, g.to_bits());
+                let p0 = nw.parameters();
+                let o = catch(|| nw.solve(&fw));
+                let p1 = nw.parameters();
+                for (w, q) in [("before", p0), ("after", p1)] {
+                    let got = (q.0.to_bits(), q.1.to_bits(), q.2, q.3.to_bits());
+                    if got != want && pm.is_none() { pm = Some(format!("parameters() {} solve = {:?}, configured (tol,delta,max_iter,guess)=({:e},{:e},{},{:?})", w, q, cfg.tol, cfg.delta, k, g)); }
+                }
+                out.push(finish(o, |v: &f64| vec![*v], calls.get(), 0, log.into_inner()));
+            }
+        }
+        Body::C(f) => {
+            let g = (cfg.guess[0], cfg.guess[1]);
+            let mut nw = Newton::<Cmplx>::new(to_cm(g));
+            nw.tolerance(cfg.tol);
+            nw.delta(cfg.delta);
+            for &k in limits {
+                nw.iterations(k);
+                let calls = Cell::new(0u64);
+                let log = RefCell::new(Vec::<u64>::new());
+                let cap = per * k as u64 + BUDGET_SLACK;
+                let fw = |z: Cmplx| -> Cmplx {
+                    let c = calls.get() + 1;
+                    calls.set(c);
+                    if c > cap { std::panic::panic_any(StepBudget); }
+                    { let mut l = log.borrow_mut(); l.push(z.real.to_bits()); l.push(z.imag.to_bits()); }
+                    to_cm(f((z.real, z.imag)))
+                };
+                let want = (cfg.tol.to_bits(), cfg.delta.to_bits(), k, g.0.to_bits(), g.1.to_bits());
+                let p0 = nw.parameters();
+                let o = catch(|| nw.solve(&fw));
+                let p1 = nw.parameters();
+                for (w, q) in [("before", p0), ("after", p1)] {
+                    let got = (q.0.to_bits(), q.1.to_bits(), q.2, q.3.real.to_bits(), q.3.imag.to_bits());
+                    if got != want && pm.is_none() { pm = Some(format!("parameters() {} solve = {:?}, configured (tol,delta,max_iter,guess)=({:e},{:e},{},{:?})", w, q, cfg.tol, cfg.delta, k, g)); }
+                }
+                out.push(finish(o, |v: &Cmplx| vec![v.real, v.imag], calls.get(), 0, log.into_inner()));
+            }
+        }
+        Body::SR(f, jac) => {
+            let mut nw = Newton::<Vec64>::new(Vector::create(cfg.guess.clone()));
+            nw.tolerance(cfg.tol);
+            nw.delta(cfg.delta);
+            for &k in limits {
+                nw.iterations(k);
+                let calls = Cell::new(0u64);
+                let jcalls = Cell::new(0u64);
+                let log = RefCell::new(Vec::<u64>::new());
+                let cap = per * k as u64 + BUDGET_SLACK;
+                let jcap = k as u64 + BUDGET_SLACK;
+                let fw = |v: Vec64| -> Vec64 {
+                    let c = calls.get() + 1;
+                    calls.set(c);
+                    if c > cap { std::panic::panic_any(StepBudget); }
+                    { let mut l = log.borrow_mut(); l.push(0xF); for x in &v.vec { l.push(x.to_bits()); } }
+                    Vector::create(f(&v.vec))
+                };
+                let o = match jac {
+                    None => catch(|| nw.solve(&fw)),
+                    Some(jf) => {
+                        let jw = |v: Vec64| -> Mat64 {
+                            let c = jcalls.get() + 1;
+                            jcalls.set(c);
+                            if c > jcap { std::panic::panic_any(StepBudget); }
+                            { let mut l = log.borrow_mut(); l.push(0xA); for x in &v.vec { l.push(x.to_bits()); } }
+                            mat_f64(&jf(&v.vec))
+                        };
+                        catch(|| nw.solve_jacobian(&fw, &jw))
+                    }
+                };
+                out.push(finish(o, |v: &Vec64| v.vec.clone(), calls.get(), jcalls.get(), log.into_inner()));
+            }
+        }
+        Body::SC(f, jac) => {
+            let g: Vec<Cmplx> = unflat_c(&cfg.guess).into_iter().map(to_cm).collect();
+            let mut nw = Newton::<Vector<Cmplx>>::new(Vector::create(g));
+            nw.tolerance(cfg.tol);
+            nw.delta(cfg.delta);
+            let unc = |v: &Vector<Cmplx>| -> Vec<C2> { v.vec.iter().map(|z| (z.real, z.imag)).collect() };
+            for &k in limits {
+                nw.iterations(k);
+                let calls = Cell::new(0u64);
+                let jcalls = Cell::new(0u64);
+                let log = RefCell::new(Vec::<u64>::new());
+                let cap = per * k as u64 + BUDGET_SLACK;
+                let jcap = k as u64 + BUDGET_SLACK;
+                let fw = |v: Vector<Cmplx>| -> Vector<Cmplx> {
+                    let c = calls.get() + 1;
+                    calls.set(c);
+                    if c > cap { std::panic::panic_any(StepBudget); }
+                    { let mut l = log.borrow_mut(); l.push(0xF); for z in &v.vec { l.push(z.real.to_bits()); l.push(z.imag.to_bits()); } }
+                    Vector::create(f(&unc(&v)).into_iter().map(to_cm).collect())
+                };
+                let o = match jac {
+                    None => catch(|| nw.solve(&fw)),
+                    Some(jf) => {
+                        let jw = |v: Vector<Cmplx>| -> Matrix<Cmplx> {
+                            let c = jcalls.get() + 1;
+                            jcalls.set(c);
+                            if c > jcap { std::panic::panic_any(StepBudget); }
+                            { let mut l = log.borrow_mut(); l.push(0xA); for z in &v.vec { l.push(z.real.to_bits()); l.push(z.imag.to_bits()); } }
+                            let m: Vec<Vec<Cmplx>> = jf(&unc(&v)).into_iter().map(|r| r.into_iter().map(to_cm).collect()).collect();
+                            mat_c(&m)
+                        };
+                        catch(|| nw.solve_jacobian(&fw, &jw))
+                    }
+                };
+                out.push(finish(o, |v: &Vector<Cmplx>| flat_c(&unc(v)), calls.get(), jcalls.get(), log.into_inner()));
+            }
+        }
+    }
+    (out, pm)
+}
+
+// ------------------------------------------------------------------ independent model of ONE Newton step
+#[derive(Clone, Copy, PartialEq, Debug)]
+enum Met { Yes, No, NoNan, Either }
+struct MStep {
+    met: Met,
+    /// value of the stopping quantity (|dx| scalar, ||F||inf systems; NaN if undefined)
+    crit: f64,
+    /// admissible next points (flat); more than one when rounding-level choices of evaluation points exist
+    cands: Vec<Vec<f64>>,
+    dxn: f64,
+    /// all candidates finite
+    finite: bool,
+    /// the step is numerically well determined (value comparison is meaningful)
+    well: bool,
+}
+
+fn met_of(crit: f64, tol: f64, cplx: bool) -> Met {
+    if crit.is_nan() || tol.is_nan() { return Met::No; }
+    if crit != tol && tol.is_finite() && tol > 0.0 && (crit - tol).abs() <= CRIT_SLACK * tol { return Met::Either; }
+    // the library's complex modulus sqrt(re^2+im^2) under/overflows where hypot does not
+    if cplx && crit != tol && ((crit < 1e-140 && tol < 1e-140) || (crit > 1e140 && tol > 1e140)) { return Met::Either; }
+    if crit <= tol { Met::Yes } else { Met::No }
+}
+
+/// Gaussian elimination with partial pivoting (textbook, own code), real
+fn gepp_r(a: &Vec<Vec<f64>>, b: &[f64]) -> Vec<f64> {
+    let n = b.len();
+    let mut m = a.clone();
+    let mut x = b.to_vec();
+    for k in 0..n {
+        let mut p = k;
+        for i in k + 1..n { if m[i][k].abs() > m[p][k].abs() { p = i; } }
+        m.swap(k, p);
+        x.swap(k, p);
+        for i in k + 1..n {
+            let l = m[i][k] / m[k][k];
+            for j in k..n { let t = m[k][j]; m[i][j] -= l * t; }
+            let t = x[k];
+            x[i] -= l * t;
+        }
+    }
+    for k in (0..n).rev() {
+        let mut s = x[k];
+        for j in k + 1..n { s -= m[k][j] * x[j]; }
+        x[k] = s / m[k][k];
+    }
+    x
+}
+fn gepp_c(a: &Vec<Vec<C2>>, b: &[C2]) -> Vec<C2> {
+    let n = b.len();
+    let mut m = a.clone();
+    let mut x = b.to_vec();
+    for k in 0..n {
+        let mut p = k;
+        for i in k + 1..n { if cab(m[i][k]) > cab(m[p][k]) { p = i; } }
+        m.swap(k, p);
+        x.swap(k, p);
+        for i in k + 1..n {
+            let l = cdiv(m[i][k], m[k][k]);
+            for j in k..n { let t = m[k][j]; m[i][j] = csub(m[i][j], cmul(l, t)); }
+            let t = x[k];
+            x[i] = csub(x[i], cmul(l, t));
+        }
+    }
+    for k in (0..n).rev() {
+        let mut s = x[k];
+        for j in k + 1..n { s = csub(s, cmul(m[k][j], x[j])); }
+        x[k] = cdiv(s, m[k][k]);
+    }
+    x
+}
+
+fn model_step(p: &Prob, cfg: &Cfg, xf: &[f64]) -> MStep {
+    let (tol, d) = (cfg.tol, cfg.delta);
+    match &p.body {
+        Body::R(f) => {
+            let c = xf[0];
+            let (fp, fm, f0) = (f(c + d), f(c - d), f(c));
+            let der = (fp - fm) / (2.0 * d);
+            let dx = f0 / der;
+            let xn = c - dx;
+            let crit = dx.abs();
+            let well = fp.is_finite() && fm.is_finite() && f0.is_finite() && (fp - fm).abs() >= 1e-6 * (fp.abs() + fm.abs()) && (fp - fm) != 0.0;
+            MStep { met: met_of(crit, tol, false), crit, cands: vec![vec![xn]], dxn: crit, finite: xn.is_finite() && dx.is_finite(), well }
+        }
+        Body::C(f) => {
+            let c = (xf[0], xf[1]);
+            let (fp, fm, f0) = (f((c.0 + d, c.1)), f((c.0 - d, c.1)), f(c));
+            let num = csub(fp, fm);
+            let der = (num.0 / (2.0 * d), num.1 / (2.0 * d));
+            let dx = cdiv(f0, der);
+            let xn = csub(c, dx);
+            let crit = if dx.0.is_nan() || dx.1.is_nan() { f64::NAN } else { cab(dx) };
+            let fin = |z: C2| z.0.is_finite() && z.1.is_finite();
+            let well = fin(fp) && fin(fm) && fin(f0) && cab(num) >= 1e-6 * (cab(fp) + cab(fm)) && cab(num) != 0.0;
+            MStep { met: met_of(crit, tol, true), crit, cands: vec![vec![xn.0, xn.1]], dxn: crit, finite: fin(xn) && fin(dx), well }
+        }
+        Body::SR(f, jac) => {
+            let n = xf.len();
+            let f0 = f(xf);
+            let nan = f0.iter().any(|v| v.is_nan());
+            let crit = if nan { f64::NAN } else { f0.iter().fold(0.0f64, |m, v| m.max(v.abs())) };
+            let met = if nan { if f0[0].is_nan() { Met::No } else { Met::NoNan } } else { met_of(crit, tol, false) };
+            let mut jacs: Vec<Vec<Vec<f64>>> = vec![];
+            match jac {
+                Some(jf) => jacs.push(jf(xf)),
+                None => {
+                    // forward differences, evaluation points formed freshly from x ...
+                    let mut a = vec![vec![0.0; n]; n];
+                    for j in 0..n {
+                        let mut xp = xf.to_vec();
+                        xp[j] += d;
+                        let fj = f(&xp);
+                        for i in 0..n { a[i][j] = (fj[i] - f0[i]) / d; }
+                    }
+                    jacs.push(a);
+                    // ... or by perturbing and restoring one running state vector
+                    let mut b = vec![vec![0.0; n]; n];
+                    let mut s = xf.to_vec();
+                    for j in 0..n {
+                        s[j] += d;
+                        let fj = f(&s);
+                        s[j] -= d;
+                        for i in 0..n { b[i][j] = (fj[i] - f0[i]) / d; }
+                    }
+                    jacs.push(b);
+                }
+            }
+            let well = all_fin(&f0) && jacs.iter().all(|a| matches!(cp_cert_real(a), Some(k) if k <= STEP_MAX_COND));
+            let mut cands = vec![];
+            let mut dxn = 0.0f64;
+            for a in &jacs {
+                let dx = gepp_r(a, &f0);
+                dxn = dxn.max(pnorm(&dx, false));
+                cands.push(xf.iter().zip(&dx).map(|(x, e)| x - e).collect::<Vec<f64>>());
+            }
+            let finite = cands.iter().all(|c| all_fin(c));
+            MStep { met, crit, cands, dxn, finite, well }
+        }
+        Body::SC(f, jac) => {
+            let x = unflat_c(xf);
+            let n = x.len();
+            let f0 = f(&x);
+            let isnan = |z: &C2| z.0.is_nan() || z.1.is_nan();
+            let nan = f0.iter().any(isnan);
+            let crit = if nan { f64::NAN } else { f0.iter().fold(0.0f64, |m, v| m.max(cab(*v))) };
+            let met = if nan { if isnan(&f0[0]) { Met::No } else { Met::NoNan } } else { met_of(crit, tol, true) };
+            let mut jacs: Vec<Vec<Vec<C2>>> = vec![];
+            match jac {
+                Some(jf) => jacs.push(jf(&x)),
+                None => {
+                    let mut a = vec![vec![(0.0, 0.0); n]; n];
+                    for j in 0..n {
+                        let mut xp = x.clone();
+                        xp[j].0 += d;
+                        let fj = f(&xp);
+                        for i in 0..n { let t = csub(fj[i], f0[i]); a[i][j] = (t.0 / d, t.1 / d); }
+                    }
+                    jacs.push(a);
+                    let mut b = vec![vec![(0.0, 0.0); n]; n];
+                    let mut s = x.clone();
+                    for j in 0..n {
+                        s[j].0 += d;
+                        let fj = f(&s);
+                        s[j].0 -= d;
+                        for i in 0..n { let t = csub(fj[i], f0[i]); b[i][j] = (t.0 / d, t.1 / d); }
+                    }
+                    jacs.push(b);
+                }
+            }
+            let well = all_fin(&flat_c(&f0)) && jacs.iter().all(|a| {
+                let m: Vec<Vec<Cmplx>> = a.iter().map(|r| r.iter().map(|z| to_cm(*z)).collect()).collect();
+                m.iter().all(|r| r.iter().all(|z| z.real.is_finite() && z.imag.is_finite())) && matches!(cp_cert_cmplx(&m), Some(k) if k <= STEP_MAX_COND)
+            });
+            let mut cands = vec![];
+            let mut dxn = 0.0f64;
+            for a in &jacs {
+                let dx = gepp_c(a, &f0);
+                dxn = dxn.max(pnorm(&flat_c(&dx), true));
+                cands.push(flat_c(&x.iter().zip(&dx).map(|(p, e)| csub(*p, *e)).collect::<Vec<C2>>()));
+            }
+            let finite = cands.iter().all(|c| all_fin(c));
+            MStep { met, crit, cands, dxn, finite, well }
+        }
+    }
+}
+
+// ------------------------------------------------------------------ certificate for the success half
+/// Bounds valid on the ball of radius `rball` around the planted root (inf-norm / modulus):
+/// m1 <= 1/||J^-1||, mm1 >= ||J||, m2 >= Lipschitz constant of J, evaluation error of the user
+/// function <= ef0 + ef1*dist(x,root), xmax >= ||x||.
+#[derive(Clone, Debug)]
+struct Bounds { m1: f64, mm1: f64, m2: f64, ef0: f64, ef1: f64, xmax: f64 }
+#[derive(Clone, Debug)]
+struct Cert { root: Vec<f64>, root_unc: f64, b: Bounds, kstar: usize, dist0: f64, h: f64 }
+
+/// perturbation of the derivative/Jacobian used by the library relative to the true one (inf-norm)
+fn deriv_err(kind: Kind, n: usize, b: &Bounds, rball: f64, delta: f64) -> f64 {
+    let efmax = b.ef0 + b.ef1 * rball;
+    match kind {
+        // central difference: truncation <= M2*delta, rounding of the two values, inexact abscissae
+        Kind::R | Kind::C => b.m2 * delta + (efmax + 2.0 * U * b.xmax * b.mm1) / delta,
+        // forward differences, n columns contribute to a row sum
+        Kind::SR | Kind::SC => b.m2 * delta + n as f64 * (2.0 * efmax + 4.0 * U * b.xmax * b.mm1) / delta,
+        // user Jacobian evaluated in floating point
+        Kind::SRJ | Kind::SCJ => 8.0 * U * n as f64 * b.mm1,
+    }
+}
+
+/// Majorant recurrence E_{k+1} >= ||x_{k+1}-root|| given E_k >= ||x_k-root||. Returns the first
+/// iteration index k* at which the library's stopping test is guaranteed to hold (with factor 2 margin).
+fn certify(kind: Kind, n: usize, b: &Bounds, rball: f64, e0: f64, delta: f64, tol: f64) -> Option<usize> {
+    let ed = deriv_err(kind, n, b, rball, delta);
+    if !(ed <= 0.05 * b.m1) { return None; }
+    let m1p = b.m1 - ed;
+    let nn = n as f64;
+    // relative error of the computed step (division / dense elimination)
+    let gam = if kind.scalar() { 8.0 * U } else { 64.0 * nn * nn * U * (b.mm1 + ed) / m1p };
+    let mut e = e0;
+    for k in 0..KCAP {
+        let ef = b.ef0 + b.ef1 * e;
+        let en = (ed * e + 0.5 * b.m2 * e * e + ef) / m1p + 2.0 * gam * e + 4.0 * U * b.xmax;
+        if !(en.is_finite() && en <= 0.9 * rball && e <= 0.999 * rball) { return None; }
+        let stop = if kind.scalar() { 2.0 * (e + en) * (1.0 + gam) <= tol } else { 2.0 * (b.mm1 * e + ef) <= tol };
+        if stop { return Some(k); }
+        e = en;
+    }
+    None
+}
+
+// ------------------------------------------------------------------ the generic judge
+fn show_pt(v: &[f64]) -> String { format!("{:?}", v) }
+
+struct Probe<'a> { p: &'a Prob, cfg: &'a Cfg, cache: BTreeMap<usize, Option<RunOut>> }
+
+/// termination / evaluation-bound / panic verdicts for one library call
+fn basic(st: &mut Stats, p: &Prob, k: usize, r: &LibRes, desc: &dyn Fn() -> String) -> Option<RunOut> {
+    let kind = p.kind();
+    let (fb, jb) = (p.per_iter() * k as u64, if matches!(kind, Kind::SRJ | Kind::SCJ) { k as u64 } else { 0 });
+    match r {
+        LibRes::Done(o) => {
+            if fb > 0 { st.max(&format!("{}:max_fcalls_over_bound", kind.name()), o.fcalls as f64 / fb as f64); }
+            if o.fcalls > fb || o.jcalls > jb {
+                st.violation(&sig(kind, "eval-bound"), format!("limit {}: {} function and {} jacobian evaluations, allowed {} and {}; {}", k, o.fcalls, o.jcalls, fb, jb, desc()));
+            }
+            if o.x.len() != if kind.cplx() { 2 * p.n } else { p.n } {
+                st.violation(&sig(kind, "result-shape"), format!("limit {}: returned point {:?}; {}", k, o.x, desc()));
+                return None;
+            }
+            Some(o.clone())
+        }
+        LibRes::Budget(fc, jc) => {
+            st.violation(&sig(kind, "eval-bound"), format!("limit {}: aborted after {} function and {} jacobian evaluations, allowed {} and {} (no termination within budget); {}", k, fc, jc, fb, jb, desc()));
+            None
+        }
+        LibRes::Panic(m) => {
+            st.violation(&sig(kind, "panic"), format!("limit {}: panic {}; {}", k, m, desc()));
+            None
+        }
+        LibRes::Other => { st.count("skipped:harness-outcome"); None }
+    }
+}
+
+impl<'a> Probe<'a> {
+    fn get(&mut self, st: &mut Stats, k: usize, desc: &dyn Fn() -> String) -> Option<RunOut> {
+        if let Some(r) = self.cache.get(&k) { return r.clone(); }
+        let (rs, pm) = run_lib(self.p, self.cfg, &[k]);
+        st.eval();
+        if let Some(m) = pm { st.violation(&sig(self.p.kind(), "parameters-changed"), format!("{}; {}", m, desc())); }
+        let r = basic(st, self.p, k, &rs[0], desc);
+        self.cache.insert(k, r.clone());
+        r
+    }
+}
+
+fn judge(st: &mut Stats, rng: &mut Rng, p: &Prob, cfg: &Cfg, kmax: usize, cert: Option<&Cert>) {
+    st.next_case();
+    let kind = p.kind();
+    let kn = kind.name();
+    let cplx = kind.cplx();
+    let desc = || format!("entry={} fn={} n={} tol={:e} delta={:e} guess={} max_iter={}", kn, p.name, p.n, cfg.tol, cfg.delta, show_pt(&cfg.guess), kmax);
+    st.count(&format!("cases:{}:{}", kn, if cert.is_some() { "certified" } else { "any-function" }));
+    let mut judged_step = false;
+
+    // --- two solves on one object: termination, bounds, parameters, repeatability
+    let (rs, pm) = run_lib(p, cfg, &[kmax, kmax]);
+    st.evals_add(2);
+    if let Some(m) = pm { st.violation(&sig(kind, "parameters-changed"), format!("{}; {}", m, desc())); }
+    let a = basic(st, p, kmax, &rs[0], &desc);
+    let b = basic(st, p, kmax, &rs[1], &desc);
+    let a = match a { Some(a) => a, None => return };
+    if let Some(b) = &b {
+        if a.ok != b.ok || bits(&a.x) != bits(&b.x) {
+            st.violation(&sig(kind, "repeat-result-differs"), format!("first call {}({}) second call {}({}); {}", if a.ok { "Ok" } else { "Err" }, show_pt(&a.x), if b.ok { "Ok" } else { "Err" }, show_pt(&b.x), desc()));
+        } else if a.log != b.log || a.fcalls != b.fcalls || a.jcalls != b.jcalls {
+            let i = a.log.iter().zip(&b.log).position(|(x, y)| x != y).unwrap_or(a.log.len().min(b.log.len()));
+            st.violation(&sig(kind, "repeat-evaluations-differ"), format!("evaluation logs differ at word {} (calls {}+{} vs {}+{}); {}", i, a.fcalls, a.jcalls, b.fcalls, b.jcalls, desc()));
+        }
+    }
+    let mut pr = Probe { p, cfg, cache: BTreeMap::new() };
+    pr.cache.insert(kmax, Some(a.clone()));
+
+    // --- limit 0 => Err(guess), no evaluations
+    let zero_check = |st: &mut Stats, r: &RunOut| {
+        if r.ok || bits(&r.x) != bits(&cfg.guess) || r.fcalls != 0 || r.jcalls != 0 {
+            st.violation(&sig(kind, "zero-limit"), format!("limit 0 returned {}({}) after {} evaluations, expected Err(guess) untouched; {}", if r.ok { "Ok" } else { "Err" }, show_pt(&r.x), r.fcalls + r.jcalls, desc()));
+        }
+    };
+    if kmax == 0 { zero_check(st, &a); }
+
+    // --- certified success demand
+    if let Some(c) = cert {
+        let d = pdist(&a.x, &c.root, cplx);
+        let rn = pnorm(&c.root, cplx);
+        let tm = if kind.scalar() { ACC_TOL * cfg.tol } else { (ACC_TOL * cfg.tol).max(ACC_TOLM * cfg.tol / c.b.m1) };
+        let bound = tm + ACC_U * U * (1.0 + rn) * c.b.mm1 / c.b.m1 + c.root_unc;
+        if !a.ok {
+            st.violation(&sig(kind, "certified-no-success"), format!("Err({}) although convergence is certified within {} iterations (root {}, |guess-root|={:e}, m1={:e} M1={:e} M2={:e} h={:.3}); {}", show_pt(&a.x), c.kstar + 1, show_pt(&c.root), c.dist0, c.b.m1, c.b.mm1, c.b.m2, c.h, desc()));
+        } else {
+            st.max(&format!("{}:max_dist_over_bound", kn), d / bound);
+            st.max(&format!("{}:max_dist_over_tol", kn), d / cfg.tol);
+            if !(d <= bound) {
+                st.violation(&sig(kind, "success-far-from-root"), format!("Ok({}) at distance {:e} > {:e} from root {} (m1={:e} M1={:e}); {}", show_pt(&a.x), d, bound, show_pt(&c.root), c.b.m1, c.b.mm1, desc()));
+            }
+            let allowed = p.per_iter() * (c.kstar as u64 + 1);
+            st.max(&format!("{}:max_fcalls_over_certified", kn), a.fcalls as f64 / allowed as f64);
+            if a.fcalls > allowed {
+                st.violation(&sig(kind, "certified-late-stop"), format!("{} function evaluations although the stopping test is certified to hold at iteration {} ({} evaluations); {}", a.fcalls, c.kstar, allowed, desc()));
+            }
+        }
+        st.set_insert(&format!("certified_iters:{}", kn), format!("{}", c.kstar + 1));
+    }
+
+    // --- metamorphic chain in the limit
+    let mut pairs: Vec<usize> = vec![];
+    if a.ok {
+        st.count(&format!("result:{}:ok", kn));
+        if kmax > 0 {
+            if let Some(r0) = pr.get(st, 0, &desc) { zero_check(st, &r0); }
+            let (mut lo, mut hi) = (0usize, kmax);
+            while hi - lo > 1 {
+                let mid = (lo + hi) / 2;
+                match pr.get(st, mid, &desc) { Some(r) => if r.ok { hi = mid } else { lo = mid }, None => return }
+            }
+            pairs.push(lo);
+            if lo >= 1 { pairs.push(rng.usize(0, lo - 1)); }
+            pairs.push(hi);
+            st.set_insert(&format!("iterations_to_ok:{}", kn), format!("{}", hi));
+        }
+    } else {
+        st.count(&format!("result:{}:err", kn));
+        if kmax >= 1 { pairs.push(kmax - 1); }
+        pairs.push(kmax);
+        if kmax >= 2 { pairs.push(rng.usize(0, kmax - 2)); }
+    }
+    for k in pairs {
+        let rk = match pr.get(st, k, &desc) { Some(r) => r, None => continue };
+        let rk1 = match pr.get(st, k + 1, &desc) { Some(r) => r, None => continue };
+        let show = |r: &RunOut| format!("{}({})", if r.ok { "Ok" } else { "Err" }, show_pt(&r.x));
+        if rk.ok {
+            if !rk1.ok || bits(&rk.x) != bits(&rk1.x) {
+                st.violation(&sig(kind, "limit-monotonicity"), format!("limit {} gives {} but limit {} gives {}; {}", k, show(&rk), k + 1, show(&rk1), desc()));
+            }
+            continue;
+        }
+        if !all_fin(&rk.x) { st.count(&format!("pairs:{}:nonfinite-iterate", kn)); continue; }
+        let ms = model_step(p, cfg, &rk.x);
+        // status
+        let bad_status = match ms.met { Met::Yes => !rk1.ok, Met::No | Met::NoNan => rk1.ok, Met::Either => false };
+        if bad_status {
+            let mode = match ms.met { Met::Yes => "criterion-met-but-err", Met::NoNan => "ok-despite-nan-residual", _ => "ok-but-criterion-not-met" };
+            st.violation(&sig(kind, mode), format!("limit {} gives {}; at that point the stopping quantity is {:e} (tol {:e}) yet limit {} gives {}; {}", k, show(&rk), ms.crit, cfg.tol, k + 1, show(&rk1), desc()));
+            continue;
+        }
+        st.count(&format!("pairs:{}:status-{:?}-{}", kn, ms.met, if rk1.ok { "ok" } else { "err" }));
+        // value
+        if !(ms.finite && ms.well) {
+            st.count(&format!("pairs:{}:step-undetermined", kn));
+            if rk1.ok && !all_fin(&rk1.x) { st.count(&format!("observed:{}:ok-with-nonfinite-point(singular-derivative)", kn)); }
+            continue;
+        }
+        let rel = if kind.scalar() { STEP_REL_SCALAR } else { STEP_REL_SYS };
+        let tolv = rel * ms.dxn + STEP_ABS * pnorm(&rk.x, cplx) + f64::MIN_POSITIVE;
+        let dmin = ms.cands.iter().map(|c| pdist(&rk1.x, c, cplx)).fold(f64::INFINITY, |m, d| if d.is_nan() { m } else { m.min(d) });
+        st.max(&format!("{}:max_step_dev_over_tol", kn), dmin / tolv);
+        if !(dmin <= tolv) {
+            st.violation(&sig(kind, "step-mismatch"), format!("limit {} gives {}, limit {} gives {}, but one Newton step from the former is {} (deviation {:e} > {:e}); {}", k, show(&rk), k + 1, show(&rk1), show_pt(&ms.cands[0]), dmin, tolv, desc()));
+        } else {
+            judged_step = true;
+        }
+    }
+    let nontrivial = judged_step || cert.map_or(false, |c| c.dist0 > 0.0);
+    if nontrivial {
+        st.nontrivial(hmix(hash_str(&desc()), cert.map_or(0, |c| c.kstar as u64 + 1)));
+        st.count(&format!("nontrivial:{}", kn));
+    }
+    st.sample(|| desc());
+}
+
+// ------------------------------------------------------------------ success-half generators
+const TOLS: [f64; 9] = [1e-12, 1e-11, 1e-10, 1e-9, 1e-8, 1e-7, 1e-6, 1e-5, 1e-4];
+
+/// A function family with a planted simple root and derivative bounds as a function of the ball radius.
+struct Planted { prob: Prob, root: Vec<f64>, root_unc: f64, rcap: f64, bounds: Box<dyn Fn(f64) -> Option<Bounds>> }
+
+/// Choose ball, guess, tolerance, limit for a planted problem and judge it. Returns false if no certificate was found.
+fn run_planted(st: &mut Stats, rng: &mut Rng, pl: &Planted) -> bool {
+    let kind = pl.prob.kind();
+    let n = pl.prob.n;
+    let cplx = kind.cplx();
+    let delta = if kind.scalar() { *rng.pick(&[1e-8, 1e-8, 1e-7, 1e-6, 1e-5, 1e-4]) } else { *rng.pick(&[1e-8, 1e-8, 1e-7, 1e-6]) };
+    // largest ball (geometric search) on which h = rho*M2/(2 m1') <= 1/4
+    let mut found: Option<(f64, f64, Bounds, f64)> = None;
+    let mut rball = pl.rcap;
+    for _ in 0..60 {
+        if let Some(b) = (pl.bounds)(rball) {
+            let ed = deriv_err(kind, n, &b, rball, delta);
+            if b.m1 > 0.0 && ed <= 0.05 * b.m1 {
+                let rho = (rball - 2.0 * delta) / 1.01;
+                let h = rho * b.m2 / (2.0 * (b.m1 - ed));
+                if rho > 0.0 && h <= H_MAX { found = Some((rball, rho, b, h)); break; }
+            }
+        }
+        rball *= 0.75;
+    }
+    let (rball, rho, b, _) = match found { Some(t) => t, None => { st.count(&format!("skipped:{}:no-ball", kind.name())); return false; } };
+    // guess throughout the ball
+    let theta = match rng.below(8) { 0 => 0.0, 1 => 1.0, 2 => rng.logpos(1e-9, 1.0), _ => rng.unit() };
+    let mut guess = pl.root.clone();
+    if cplx {
+        let mut worst = 0.0f64;
+        let dirs: Vec<C2> = (0..n).map(|_| { let (m, a) = (rng.unit(), rng.range(0.0, std::f64::consts::TAU)); worst = worst.max(m); (m * a.cos(), m * a.sin()) }).collect();
+        for i in 0..n { let s = if worst > 0.0 { theta * rho / worst } else { 0.0 }; guess[2 * i] += s * dirs[i].0; guess[2 * i + 1] += s * dirs[i].1; }
+    } else {
+        let dirs: Vec<f64> = (0..n).map(|_| rng.sym()).collect();
+        let worst = dirs.iter().fold(0.0f64, |m, v| m.max(v.abs()));
+        for i in 0..n { let s = if worst > 0.0 { theta * rho / worst } else { 0.0 }; guess[i] += s * dirs[i]; }
+    }
+    let dist0 = pdist(&guess, &pl.root, cplx);
+    let e0 = dist0 * (1.0 + 1e-12) + pl.root_unc + 4.0 * U * b.xmax;
+    if !(e0 <= rho * 1.001 + pl.root_unc + 4.0 * U * b.xmax) { st.count("skipped:guess-outside-ball"); return false; }
+    let h = e0 * b.m2 / (2.0 * (b.m1 - deriv_err(kind, n, &b, rball, delta)));
+    // tolerance: drawn from the list, raised until the certificate exists
+    let mut ti = rng.usize(0, TOLS.len() - 1);
+    let (tol, kstar) = loop {
+        if let Some(k) = certify(kind, n, &b, rball, e0, delta, TOLS[ti]) { break (TOLS[ti], k); }
+        st.count(&format!("certificate:{}:tol-raised", kind.name()));
+        ti += 1;
+        if ti >= TOLS.len() { st.count(&format!("skipped:{}:uncertified", kind.name())); return false; }
+    };
+    let extra = match rng.below(4) { 0 | 1 => 0, 2 => rng.usize(1, 3), _ => rng.usize(0, KCAP - (kstar + 1)) };
+    let kmax = (kstar + 1 + extra).min(KCAP);
+    st.max(&format!("{}:max_h", kind.name()), h);
+    st.set_insert("success_families", format!("{}:{}", kind.name(), pl.prob.name.split('[').next().unwrap_or("")));
+    let cert = Cert { root: pl.root.clone(), root_unc: pl.root_unc, b, kstar, dist0, h };
+    let cfg = Cfg { tol, delta, guess };
+    judge(st, rng, &pl.prob, &cfg, kmax, Some(&cert));
+    true
+}
+
+/// bounds for s*prod(x - r_j) around the target root: `d` = distances to the other roots
+fn poly_bounds(d: &[f64], s: f64, r: f64) -> Option<(f64, f64, f64)> {
+    let s = s.abs();
+    let mut plo = 1.0;
+    for &dj in d { if dj - r <= 0.0 { return None; } plo *= dj - r; }
+    let mut ssum = 0.0;
+    for i in 0..d.len() { let mut t = 1.0; for j in 0..d.len() { if j != i { t *= d[j] + r; } } ssum += t; }
+    let m1 = s * (plo - r * ssum);
+    let mut e: Vec<f64> = vec![r];
+    e.extend(d.iter().map(|dj| dj + r));
+    let k = e.len();
+    let (mut mm1, mut m2) = (0.0, 0.0);
+    for i in 0..k {
+        let mut t = 1.0;
+        for j in 0..k { if j != i { t *= e[j]; } }
+        mm1 += t;
+        for l in 0..k { if l != i { let mut t2 = 1.0; for j in 0..k { if j != i && j != l { t2 *= e[j]; } } m2 += t2; } }
+    }
+    if m1 > 0.0 { Some((m1, s * mm1, s * m2)) } else { None }
+}
+
+fn separated_reals(rng: &mut Rng, k: usize, gap: f64) -> Vec<f64> {
+    let mut v: Vec<f64> = vec![];
+    let mut tries = 0;
+    while v.len() < k && tries < 1000 {
+        tries += 1;
+        let c = rng.range(-4.0, 4.0);
+        if v.iter().all(|x| (x - c).abs() >= gap) { v.push(c); }
+    }
+    v
+}
+fn separated_cplx(rng: &mut Rng, k: usize, gap: f64) -> Vec<C2> {
+    let mut v: Vec<C2> = vec![];
+    let mut tries = 0;
+    while v.len() < k && tries < 1000 {
+        tries += 1;
+        let c = (rng.range(-3.0, 3.0), rng.range(-3.0, 3.0));
+        if v.iter().all(|x| cab(csub(*x, c)) >= gap) { v.push(c); }
+    }
+    v
+}
+
+/// scalar nonlinearity phi with sup|phi'|, sup|phi''|, sup|phi| on [c-r, c+r] (or the complex disc)
+#[derive(Clone, Copy, Debug, PartialEq)]
+enum Phi { Sin, Tanh, Exp, Sq, Cube, Atan }
+impl Phi {
+    fn r(self, x: f64) -> f64 { match self { Phi::Sin => x.sin(), Phi::Tanh => x.tanh(), Phi::Exp => x.exp(), Phi::Sq => x * x, Phi::Cube => x * x * x, Phi::Atan => x.atan() } }
+    fn dr(self, x: f64) -> f64 { match self { Phi::Sin => x.cos(), Phi::Tanh => 1.0 - x.tanh() * x.tanh(), Phi::Exp => x.exp(), Phi::Sq => 2.0 * x, Phi::Cube => 3.0 * x * x, Phi::Atan => 1.0 / (1.0 + x * x) } }
+    fn c(self, z: C2) -> C2 { match self { Phi::Sin => csin(z), Phi::Exp => cexp(z), Phi::Sq => cmul(z, z), Phi::Cube => cmul(z, cmul(z, z)), _ => unreachable!() } }
+    fn dc(self, z: C2) -> C2 { match self { Phi::Sin => ccos(z), Phi::Exp => cexp(z), Phi::Sq => cscale(z, 2.0), Phi::Cube => cscale(cmul(z, z), 3.0), _ => unreachable!() } }
+    /// (L1, L2, Gmax) given X >= |x| (modulus), Y >= |Im x| (0 for reals), XR >= Re x
+    fn sup(self, x: f64, y: f64, xr: f64) -> (f64, f64, f64) {
+        match self {
+            Phi::Sin => (y.cosh(), y.cosh(), y.cosh()),
+            Phi::Tanh => (1.0, 0.77, 1.0),
+            Phi::Exp => (xr.exp(), xr.exp(), xr.exp()),
+            Phi::Sq => (2.0 * x, 2.0, x * x),
+            Phi::Cube => (3.0 * x * x, 6.0 * x, x * x * x),
+            Phi::Atan => (1.0, 0.65, 1.6),
+        }
+    }
+}
+
+fn planted_scalar_real(rng: &mut Rng) -> Option<Planted> {
+    let mk = |name: String, f: FnR, root: f64, unc: f64, rcap: f64, bounds: Box<dyn Fn(f64) -> Option<Bounds>>| Planted { prob: Prob { name, n: 1, body: Body::R(f) }, root: vec![root], root_unc: unc, rcap, bounds };
+    match rng.below(6) {
+        0 => {
+            // product form, general separated roots
+            let k = rng.usize(1, 6);
+            let roots = separated_reals(rng, k, 0.6);
+            if roots.len() < k { return None; }
+            let s = rng.logmag(0.25, 4.0);
+            let t = rng.usize(0, k - 1);
+            let rt = roots[t];
+            let d: Vec<f64> = (0..k).filter(|j| *j != t).map(|j| (roots[j] - rt).abs()).collect();
+            let rc = roots.clone();
+            let f: FnR = Rc::new(move |x| { let mut p = s; for r in &rc { p *= x - r; } p });
+            let kk = k as f64;
+            Some(mk(format!("poly-product[s={:?} roots={:?} target={}]", s, roots, t), f, rt, 0.0, 2.0,
+                Box::new(move |r| poly_bounds(&d, s, r).map(|(m1, mm1, m2)| Bounds { m1, mm1, m2, ef0: 0.0, ef1: (2.0 * kk + 4.0) * U * mm1, xmax: rt.abs() + r }))))
+        }
+        1 => {
+            // expanded form with exactly representable coefficients (dyadic roots), Horner evaluation
+            let k = rng.usize(1, 5);
+            let mut roots: Vec<f64> = vec![];
+            while roots.len() < k { let c = rng.int(-6, 6) as f64 * 0.5; if !roots.contains(&c) { roots.push(c); } }
+            let s = *rng.pick(&[1.0, -1.0, 2.0, 0.5]);
+            let mut co = vec![s];
+            for r in &roots { let mut nx = vec![0.0; co.len() + 1]; for (i, c) in co.iter().enumerate() { nx[i + 1] += c; nx[i] -= c * r; } co = nx; }
+            let t = rng.usize(0, k - 1);
+            let rt = roots[t];
+            let d: Vec<f64> = (0..k).filter(|j| *j != t).map(|j| (roots[j] - rt).abs()).collect();
+            let c2 = co.clone();
+            let f: FnR = Rc::new(move |x| { let mut p = 0.0; for c in c2.iter().rev() { p = p * x + c; } p });
+            let kk = k as f64;
+            let c3 = co.clone();
+            Some(mk(format!("poly-horner[coeffs(low..high)={:?} roots={:?} target={}]", co, roots, t), f, rt, 0.0, 1.0,
+                Box::new(move |r| poly_bounds(&d, s, r).map(|(m1, mm1, m2)| {
+                    let x = rt.abs() + r;
+                    let mut sa = 0.0; let mut xp = 1.0;
+                    for c in &c3 { sa += c.abs() * xp; xp *= x; }
+                    Bounds { m1, mm1, m2, ef0: (2.0 * kk + 4.0) * U * sa, ef1: 0.0, xmax: x }
+                }))))
+        }
+        2 => {
+            // exp(x) - c
+            let c = rng.logpos(0.05, 50.0);
+            let r0 = c.ln();
+            let f: FnR = Rc::new(move |x| x.exp() - c);
+            Some(mk(format!("exp(x)-c[c={:?}]", c), f, r0, 4.0 * U * (r0.abs() + 1.0), 1.0,
+                Box::new(move |r| Some(Bounds { m1: (r0 - r).exp(), mm1: (r0 + r).exp(), m2: (r0 + r).exp(), ef0: 4.0 * U * ((r0 + r).exp() + c), ef1: 0.0, xmax: r0.abs() + r }))))
+        }
+        3 => {
+            // cos(x) - x, root = Dottie number
+            let r0 = 0.7390851332151607f64;
+            let f: FnR = Rc::new(|x: f64| x.cos() - x);
+            Some(mk("cos(x)-x[]".to_string(), f, r0, 4.0 * U, 0.8,
+                Box::new(move |r| if r <= 0.8 { Some(Bounds { m1: 1.0 + (r0 - r).sin(), mm1: 2.0, m2: 1.0, ef0: 4.0 * U * (1.0 + r0 + r), ef1: 0.0, xmax: r0 + r }) } else { None })))
+        }
+        _ => {
+            // a (x - r) + eps (phi(x) - phi(r)): root r exact
+            let phi = *rng.pick(&[Phi::Sin, Phi::Tanh, Phi::Exp, Phi::Sq, Phi::Cube, Phi::Atan]);
+            let r0 = rng.range(-2.0, 2.0);
+            let a = rng.logmag(0.5, 4.0);
+            let (l1, _, _) = phi.sup(r0.abs() + 1.0, 0.0, r0 + 1.0);
+            let eps = rng.sym() * 0.8 * a.abs() / l1;
+            let pr0 = phi.r(r0);
+            let f: FnR = Rc::new(move |x| a * (x - r0) + eps * (phi.r(x) - pr0));
+            Some(mk(format!("a(x-r)+eps({:?}(x)-{:?}(r))[a={:?} eps={:?} r={:?}]", phi, phi, a, eps, r0), f, r0, 0.0, 1.0,
+                Box::new(move |r| {
+                    let (l1, l2, g) = phi.sup(r0.abs() + r, 0.0, r0 + r);
+                    Some(Bounds { m1: a.abs() - eps.abs() * l1, mm1: a.abs() + eps.abs() * l1, m2: eps.abs() * l2, ef0: 8.0 * U * eps.abs() * g, ef1: 8.0 * U * (a.abs() + eps.abs() * l1), xmax: r0.abs() + r })
+                })))
+        }
+    }
+}
+
+fn planted_scalar_cplx(rng: &mut Rng) -> Option<Planted> {
+    let mk = |name: String, f: FnC, root: C2, unc: f64, rcap: f64, bounds: Box<dyn Fn(f64) -> Option<Bounds>>| Planted { prob: Prob { name, n: 1, body: Body::C(f) }, root: vec![root.0, root.1], root_unc: unc, rcap, bounds };
+    match rng.below(6) {
+        0 | 1 => {
+            let k = rng.usize(1, 6);
+            let roots = separated_cplx(rng, k, 0.7);
+            if roots.len() < k { return None; }
+            let s = (rng.logmag(0.25, 3.0), rng.sym());
+            let t = rng.usize(0, k - 1);
+            let rt = roots[t];
+            let d: Vec<f64> = (0..k).filter(|j| *j != t).map(|j| cab(csub(roots[j], rt)) * (1.0 - 4.0 * U)).collect();
+            let rc = roots.clone();
+            let f: FnC = Rc::new(move |z| { let mut p = s; for r in &rc { p = cmul(p, csub(z, *r)); } p });
+            let kk = k as f64;
+            let sa = cab(s) * (1.0 + 4.0 * U);
+            Some(mk(format!("cpoly-product[s={:?} roots={:?} target={}]", s, roots, t), f, rt, 0.0, 2.0,
+                Box::new(move |r| poly_bounds(&d, sa, r).map(|(m1, mm1, m2)| Bounds { m1: m1 * (1.0 - 64.0 * U), mm1, m2, ef0: 0.0, ef1: (8.0 * kk + 8.0) * U * mm1, xmax: cab(rt) + r }))))
+        }
+        2 => {
+            // z^2 - c with c = fl(r^2)
+            let r0 = (rng.logmag(0.3, 3.0), rng.sym() * 2.0);
+            let c = cmul(r0, r0);
+            let f: FnC = Rc::new(move |z| csub(cmul(z, z), c));
+            let a0 = cab(r0);
+            Some(mk(format!("z^2-c[c={:?}]", c), f, r0, 8.0 * U * a0, 1.0,
+                Box::new(move |r| if a0 - r > 0.0 { Some(Bounds { m1: 2.0 * (a0 - r) * (1.0 - 8.0 * U), mm1: 2.0 * (a0 + r), m2: 2.0, ef0: 8.0 * U * ((a0 + r) * (a0 + r) + cab(c)), ef1: 0.0, xmax: a0 + r }) } else { None })))
+        }
+        3 => {
+            // z^3 - 1
+            let t = rng.below(3);
+            let r0 = match t { 0 => (1.0, 0.0), 1 => (-0.5, 0.75f64.sqrt()), _ => (-0.5, -(0.75f64.sqrt())) };
+            let f: FnC = Rc::new(|z| csub(cmul(z, cmul(z, z)), (1.0, 0.0)));
+            Some(mk(format!("z^3-1[root#{}]", t), f, r0, 4.0 * U, 0.5,
+                Box::new(move |r| if r < 1.0 { Some(Bounds { m1: 3.0 * (1.0 - r) * (1.0 - r) * (1.0 - 8.0 * U), mm1: 3.0 * (1.0 + r) * (1.0 + r), m2: 6.0 * (1.0 + r), ef0: 16.0 * U * ((1.0 + r).powi(3) + 1.0), ef1: 0.0, xmax: 1.0 + r }) } else { None })))
+        }
+        4 => {
+            // exp(z) - c with c = fl(exp(r))
+            let r0 = (rng.range(-1.5, 1.5), rng.range(-6.0, 6.0));
+            let c = cexp(r0);
+            let f: FnC = Rc::new(move |z| csub(cexp(z), c));
+            Some(mk(format!("exp(z)-c[c={:?} root~{:?}]", c, r0), f, r0, 16.0 * U * (1.0 + cab(r0)), 1.0,
+                Box::new(move |r| Some(Bounds { m1: (r0.0 - r).exp() * (1.0 - 8.0 * U), mm1: (r0.0 + r).exp(), m2: (r0.0 + r).exp(), ef0: 16.0 * U * ((r0.0 + r).exp() * (1.0 + cab(r0) + r) + cab(c)), ef1: 0.0, xmax: cab(r0) + r }))))
+        }
+        _ => {
+            let phi = *rng.pick(&[Phi::Sin, Phi::Exp, Phi::Sq, Phi::Cube]);
+            let r0 = (rng.range(-2.0, 2.0), rng.range(-1.5, 1.5));
+            let a = (rng.logmag(0.5, 3.0), rng.sym() * 2.0);
+            let aa = cab(a);
+            let (l1, _, _) = phi.sup(cab(r0) + 1.0, r0.1.abs() + 1.0, r0.0 + 1.0);
+            let eps = cscale((rng.sym(), rng.sym()), 0.55 * aa / l1);
+            let ea = cab(eps) * (1.0 + 4.0 * U);
+            let pr0 = phi.c(r0);
+            let f: FnC = Rc::new(move |z| cadd(cmul(a, csub(z, r0)), cmul(eps, csub(phi.c(z), pr0))));
+            Some(mk(format!("a(z-r)+eps({:?}(z)-{:?}(r))[a={:?} eps={:?} r={:?}]", phi, phi, a, eps, r0), f, r0, 0.0, 1.0,
+                Box::new(move |r| {
+                    let (l1, l2, g) = phi.sup(cab(r0) + r, r0.1.abs() + r, r0.0 + r);
+                    Some(Bounds { m1: aa * (1.0 - 8.0 * U) - ea * l1, mm1: aa * (1.0 + 8.0 * U) + ea * l1, m2: ea * l2, ef0: 32.0 * U * ea * g * (1.0 + cab(r0) + r), ef1: 32.0 * U * (aa + ea * l1), xmax: cab(r0) + r })
+                })))
+        }
+    }
+}
+
+// ---- planted systems: F(x) = A (x - r) + eps (g(x) - g(r))   or   A x + eps g(x) - c,  c = fl(A r + eps g(r))
+#[derive(Clone, Copy, Debug, PartialEq)]
+enum G { Comp(Phi), Prod }
+
+#[derive(Clone)]
+struct SysR { n: usize, a: Vec<Vec<f64>>, eps: f64, g: G, sigma: Vec<usize>, r: Vec<f64>, c: Option<Vec<f64>> }
+impl SysR {
+    fn gi(&self, x: &[f64], i: usize) -> f64 { match self.g { G::Comp(p) => p.r(x[self.sigma[i]]), G::Prod => x[i] * x[(i + 1) % self.n] } }
+    fn f(&self, x: &[f64]) -> Vec<f64> {
+        (0..self.n).map(|i| match &self.c {
+            None => { let mut s = 0.0; for j in 0..self.n { s += self.a[i][j] * (x[j] - self.r[j]); } s + self.eps * (self.gi(x, i) - self.gi(&self.r, i)) }
+            Some(c) => { let mut s = 0.0; for j in 0..self.n { s += self.a[i][j] * x[j]; } s + self.eps * self.gi(x, i) - c[i] }
+        }).collect()
+    }
+    fn jac(&self, x: &[f64]) -> Vec<Vec<f64>> {
+        let mut m = self.a.clone();
+        for i in 0..self.n {
+            match self.g {
+                G::Comp(p) => m[i][self.sigma[i]] += self.eps * p.dr(x[self.sigma[i]]),
+                G::Prod => { let k = (i + 1) % self.n; m[i][i] += self.eps * x[k]; m[i][k] += self.eps * x[i]; }
+            }
+        }
+        m
+    }
+}
+#[derive(Clone)]
+struct SysC { n: usize, a: Vec<Vec<C2>>, eps: C2, g: G, sigma: Vec<usize>, r: Vec<C2>, c: Option<Vec<C2>> }
+impl SysC {
+    fn gi(&self, x: &[C2], i: usize) -> C2 { match self.g { G::Comp(p) => p.c(x[self.sigma[i]]), G::Prod => cmul(x[i], x[(i + 1) % self.n]) } }
+    fn f(&self, x: &[C2]) -> Vec<C2> {
+        (0..self.n).map(|i| match &self.c {
+            None => { let mut s = (0.0, 0.0); for j in 0..self.n { s = cadd(s, cmul(self.a[i][j], csub(x[j], self.r[j]))); } cadd(s, cmul(self.eps, csub(self.gi(x, i), self.gi(&self.r, i)))) }
+            Some(c) => { let mut s = (0.0, 0.0); for j in 0..self.n { s = cadd(s, cmul(self.a[i][j], x[j])); } csub(cadd(s, cmul(self.eps, self.gi(x, i))), c[i]) }
+        }).collect()
+    }
+    fn jac(&self, x: &[C2]) -> Vec<Vec<C2>> {
+        let mut m = self.a.clone();
+        for i in 0..self.n {
+            match self.g {
+                G::Comp(p) => { let s = self.sigma[i]; m[i][s] = cadd(m[i][s], cmul(self.eps, p.dc(x[s]))); }
+                G::Prod => { let k = (i + 1) % self.n; m[i][i] = cadd(m[i][i], cmul(self.eps, x[k])); m[i][k] = cadd(m[i][k], cmul(self.eps, x[i])); }
+            }
+        }
+        m
+    }
+}
+/// (sup ||Dg||inf, Lipschitz constant of Dg, sup |g_i|) on the ball
+fn g_sup(g: G, x: f64, y: f64, xr: f64) -> (f64, f64, f64) {
+    match g { G::Comp(p) => p.sup(x, y, xr), G::Prod => (2.0 * x, 2.0, x * x) }
+}
+
+fn planted_system(rng: &mut Rng, cplx: bool, use_jac: bool) -> Option<Planted> {
+    let n = rng.usize(1, 6);
+    let nn = n as f64;
+    let sigma = if rng.bool() { (0..n).collect::<Vec<usize>>() } else { rng.perm(n) };
+    let cform = rng.bool();
+    let offs = rng.logpos(0.05, 1.5);
+    if !cplx {
+        let g = *rng.pick(&[G::Comp(Phi::Sin), G::Comp(Phi::Tanh), G::Comp(Phi::Sq), G::Prod, G::Comp(Phi::Atan), G::Comp(Phi::Exp)]);
+        let mut a = vec![vec![0.0; n]; n];
+        let mut alpha = f64::INFINITY;
+        let mut anorm = 0.0f64;
+        for i in 0..n {
+            let mut s = 0.0;
+            for j in 0..n { if j != i { a[i][j] = if rng.chance(0.25) { 0.0 } else { rng.sym() * offs }; s += a[i][j].abs(); } }
+            let marg = rng.range(0.5, 3.0);
+            a[i][i] = (s + marg) * if rng.bool() { 1.0 } else { -1.0 };
+            alpha = alpha.min((a[i][i].abs() - s) * (1.0 - 16.0 * U));
+            anorm = anorm.max((a[i][i].abs() + s) * (1.0 + 16.0 * U));
+        }
+        let r: Vec<f64> = (0..n).map(|_| rng.range(-1.5, 1.5)).collect();
+        let rn = pnorm(&r, false);
+        let rmax = r.iter().fold(f64::NEG_INFINITY, |m, v| m.max(*v));
+        let (e1, _, _) = g_sup(g, rn + 1.0, 0.0, rmax + 1.0);
+        let eps = if rng.chance(0.06) { 0.0 } else { rng.sym() * 0.8 * alpha / e1 };
+        let mut sys = SysR { n, a, eps, g, sigma, r: r.clone(), c: None };
+        let mut unc = 0.0;
+        if cform {
+            let c: Vec<f64> = (0..n).map(|i| { let mut s = 0.0; for j in 0..n { s += sys.a[i][j] * r[j]; } s + eps * sys.gi(&r, i) }).collect();
+            let (_, _, g0) = g_sup(g, rn, 0.0, rmax);
+            // |c - exact| <= (n+4)u(||A|| |r| + |eps| |g(r)|); root moves by at most that / m1 (added below with m1 >= 0.2 alpha)
+            unc = (nn + 6.0) * 2.0 * U * (anorm * rn + eps.abs() * g0) / (0.2 * alpha);
+            sys.c = Some(c);
+        }
+        let name = format!("sysR[n={} g={:?} sigma={:?} form={} eps={:?} A={:?} r={:?}]", n, g, sys.sigma, if cform { "Ax+eps*g(x)-c" } else { "A(x-r)+eps*(g(x)-g(r))" }, eps, sys.a, r);
+        let s1 = sys.clone();
+        let f: FnSR = Rc::new(move |x| s1.f(x));
+        let jac: Option<JacSR> = if use_jac { let s2 = sys.clone(); Some(Rc::new(move |x| s2.jac(x))) } else { None };
+        let cmax = sys.c.as_ref().map_or(0.0, |c| pnorm(c, false));
+        let bounds = Box::new(move |rb: f64| {
+            let (e1, lip, gm) = g_sup(g, rn + rb, 0.0, rmax + rb);
+            let m1 = alpha - eps.abs() * e1;
+            if m1 < 0.2 * alpha * 0.999 { return None; }
+            let cu = 4.0 * (nn + 6.0) * U;
+            let (ef0, ef1) = if cform { (cu * (anorm * (rn + rb) + eps.abs() * gm + cmax), 0.0) } else { (cu * eps.abs() * gm, cu * (anorm + eps.abs() * e1)) };
+            Some(Bounds { m1, mm1: anorm + eps.abs() * e1, m2: eps.abs() * lip, ef0, ef1, xmax: rn + rb })
+        });
+        Some(Planted { prob: Prob { name, n, body: Body::SR(f, jac) }, root: r, root_unc: unc, rcap: 1.0, bounds })
+    } else {
+        let g = *rng.pick(&[G::Comp(Phi::Sq), G::Prod, G::Comp(Phi::Cube), G::Comp(Phi::Sin), G::Comp(Phi::Exp)]);
+        let mut a = vec![vec![(0.0, 0.0); n]; n];
+        let mut alpha = f64::INFINITY;
+        let mut anorm = 0.0f64;
+        for i in 0..n {
+            let mut s = 0.0;
+            for j in 0..n { if j != i { a[i][j] = if rng.chance(0.25) { (0.0, 0.0) } else { (rng.sym() * offs, rng.sym() * offs) }; s += cab(a[i][j]); } }
+            let marg = rng.range(0.5, 3.0);
+            let ph = rng.range(0.0, std::f64::consts::TAU);
+            a[i][i] = ((s + marg) * ph.cos(), (s + marg) * ph.sin());
+            alpha = alpha.min((cab(a[i][i]) - s) * (1.0 - 32.0 * U));
+            anorm = anorm.max((cab(a[i][i]) + s) * (1.0 + 32.0 * U));
+        }
+        let r: Vec<C2> = (0..n).map(|_| (rng.range(-1.2, 1.2), rng.range(-1.0, 1.0))).collect();
+        let rf = flat_c(&r);
+        let rn = pnorm(&rf, true);
+        let ymax = r.iter().fold(0.0f64, |m, z| m.max(z.1.abs()));
+        let xrmax = r.iter().fold(f64::NEG_INFINITY, |m, z| m.max(z.0));
+        let (e1, _, _) = g_sup(g, rn + 1.0, ymax + 1.0, xrmax + 1.0);
+        let em = if rng.chance(0.06) { 0.0 } else { rng.unit() * 0.8 * alpha / e1 };
+        let ph = rng.range(0.0, std::f64::consts::TAU);
+        let eps = (em * ph.cos(), em * ph.sin());
+        let ea = cab(eps) * (1.0 + 4.0 * U);
+        let mut sys = SysC { n, a, eps, g, sigma, r: r.clone(), c: None };
+        let mut unc = 0.0;
+        if cform {
+            let c: Vec<C2> = (0..n).map(|i| { let mut s = (0.0, 0.0); for j in 0..n { s = cadd(s, cmul(sys.a[i][j], r[j])); } cadd(s, cmul(eps, sys.gi(&r, i))) }).collect();
+            let (_, _, g0) = g_sup(g, rn, ymax, xrmax);
+            unc = (nn + 6.0) * 8.0 * U * (anorm * rn + ea * g0 * (2.0 + rn)) / (0.2 * alpha);
+            sys.c = Some(c);
+        }
+        let name = format!("sysC[n={} g={:?} sigma={:?} form={} eps={:?} A={:?} r={:?}]", n, g, sys.sigma, if cform { "Ax+eps*g(x)-c" } else { "A(x-r)+eps*(g(x)-g(r))" }, eps, sys.a, r);
+        let s1 = sys.clone();
+        let f: FnSC = Rc::new(move |x| s1.f(x));
+        let jac: Option<JacSC> = if use_jac { let s2 = sys.clone(); Some(Rc::new(move |x| s2.jac(x))) } else { None };
+        let cmax = sys.c.as_ref().map_or(0.0, |c| pnorm(&flat_c(c), true));
+        let bounds = Box::new(move |rb: f64| {
+            let (e1, lip, gm) = g_sup(g, rn + rb, ymax + rb, xrmax + rb);
+            let m1 = alpha - ea * e1;
+            if m1 < 0.2 * alpha * 0.999 { return None; }
+            let cu = 16.0 * (nn + 6.0) * U;
+            let gm = gm * (2.0 + rn + rb);
+            let (ef0, ef1) = if cform { (cu * (anorm * (rn + rb) + ea * gm + cmax), 0.0) } else { (cu * ea * gm, cu * (anorm + ea * e1)) };
+            Some(Bounds { m1, mm1: anorm + ea * e1, m2: ea * lip, ef0, ef1, xmax: rn + rb })
+        });
+        Some(Planted { prob: Prob { name, n, body: Body::SC(f, jac) }, root: rf, root_unc: unc, rcap: 1.0, bounds })
+    }
+}
+
+// ------------------------------------------------------------------ "any function" generators (termination / failure half)
+const NFAIL_R: u64 = 21;
+fn any_fn_r(id: u64, a: f64, b: f64) -> (String, FnR) {
+    let (name, f): (&str, FnR) = match id {
+        0 => ("x^2+a^2+0.1", Rc::new(move |x| x * x + a * a + 0.1)),
+        1 => ("exp(x)", Rc::new(|x: f64| x.exp())),
+        2 => ("sqrt|x|", Rc::new(|x: f64| x.abs().sqrt())),
+        3 => ("sign(x-b)", Rc::new(move |x| if x > b { 1.0 } else { -1.0 })),
+        4 => ("const a", Rc::new(move |_| a)),
+        5 => ("ln(x)", Rc::new(|x: f64| x.ln())),
+        6 => ("|x|+a^2", Rc::new(move |x: f64| x.abs() + a * a)),
+        7 => ("cbrt(x-b)", Rc::new(move |x: f64| (x - b).cbrt())),
+        8 => ("atan(x)", Rc::new(|x: f64| x.atan())),
+        9 => ("floor(x)+0.5", Rc::new(|x: f64| x.floor() + 0.5)),
+        10 => ("1/x", Rc::new(|x: f64| 1.0 / x)),
+        11 => ("(x-b)^2", Rc::new(move |x| (x - b) * (x - b))),
+        12 => ("x^2-a^2-1", Rc::new(move |x| x * x - a * a - 1.0)),
+        13 => ("x^3-2x+2", Rc::new(|x: f64| x * x * x - 2.0 * x + 2.0)),
+        14 => ("sqrt(x-b)", Rc::new(move |x: f64| (x - b).sqrt())),
+        15 => ("NaN", Rc::new(|_| f64::NAN)),
+        16 => ("inf", Rc::new(|_| f64::INFINITY)),
+        17 => ("sin(x)+2", Rc::new(|x: f64| x.sin() + 2.0)),
+        18 => ("a*x+b", Rc::new(move |x| a * x + b)),
+        19 => ("tanh(x)", Rc::new(|x: f64| x.tanh())),
+        _ => ("|x-b|", Rc::new(move |x: f64| (x - b).abs())),
+    };
+    (format!("{}[a={:?} b={:?}]", name, a, b), f)
+}
+const NFAIL_C: u64 = 14;
+fn any_fn_c(id: u64, a: C2, b: C2) -> (String, FnC) {
+    let (name, f): (&str, FnC) = match id {
+        0 => ("z^2+|a|^2+0.1", Rc::new(move |z| cadd(cmul(z, z), (a.0 * a.0 + a.1 * a.1 + 0.1, 0.0)))),
+        1 => ("exp(z)", Rc::new(cexp)),
+        2 => ("conj(z)-b", Rc::new(move |z: C2| csub((z.0, -z.1), b))),
+        3 => ("|z|+0.5", Rc::new(|z: C2| (cab(z) + 0.5, 0.0))),
+        4 => ("const a", Rc::new(move |_| a)),
+        5 => ("1/z", Rc::new(|z: C2| cdiv((1.0, 0.0), z))),
+        6 => ("(z-b)^2", Rc::new(move |z| cmul(csub(z, b), csub(z, b)))),
+        7 => ("z^3-1", Rc::new(|z: C2| csub(cmul(z, cmul(z, z)), (1.0, 0.0)))),
+        8 => ("NaN", Rc::new(|_| (f64::NAN, f64::NAN))),
+        9 => ("z^2+a", Rc::new(move |z| cadd(cmul(z, z), a))),
+        10 => ("a*z+b", Rc::new(move |z| cadd(cmul(a, z), b))),
+        11 => ("(sqrt|re|,im)", Rc::new(|z: C2| (z.0.abs().sqrt(), z.1))),
+        12 => ("exp(z)-1", Rc::new(|z: C2| csub(cexp(z), (1.0, 0.0)))),
+        _ => ("(re,NaN)", Rc::new(|z: C2| (z.0, f64::NAN))),
+    };
+    (format!("{}[a={:?} b={:?}]", name, a, b), f)
+}
+
+/// user-supplied "Jacobians" for the any-function half: central differences of the user's own making, or junk
+fn any_jac_r(f: FnSR, mode: u64, n: usize) -> JacSR {
+    match mode {
+        0 | 1 | 2 => Rc::new(move |x: &[f64]| {
+            let h = 1e-6;
+            let mut m = vec![vec![0.0; n]; n];
+            for j in 0..n {
+                let (mut xp, mut xm) = (x.to_vec(), x.to_vec());
+                xp[j] += h; xm[j] -= h;
+                let (fp, fm) = (f(&xp), f(&xm));
+                for i in 0..n { m[i][j] = (fp[i] - fm[i]) / (2.0 * h); }
+            }
+            m
+        }),
+        3 => Rc::new(move |_| (0..n).map(|i| (0..n).map(|j| if i == j { 2.0 } else { 0.0 }).collect()).collect()),
+        4 => Rc::new(move |_| vec![vec![0.0; n]; n]),
+        _ => Rc::new(move |_| vec![vec![f64::NAN; n]; n]),
+    }
+}
+fn any_jac_c(f: FnSC, mode: u64, n: usize) -> JacSC {
+    match mode {
+        0 | 1 | 2 => Rc::new(move |x: &[C2]| {
+            let h = 1e-6;
+            let mut m = vec![vec![(0.0, 0.0); n]; n];
+            for j in 0..n {
+                let (mut xp, mut xm) = (x.to_vec(), x.to_vec());
+                xp[j].0 += h; xm[j].0 -= h;
+                let (fp, fm) = (f(&xp), f(&xm));
+                for i in 0..n { let t = csub(fp[i], fm[i]); m[i][j] = (t.0 / (2.0 * h), t.1 / (2.0 * h)); }
+            }
+            m
+        }),
+        3 => Rc::new(move |_| (0..n).map(|i| (0..n).map(|j| if i == j { (0.0, 2.0) } else { (0.0, 0.0) }).collect()).collect()),
+        4 => Rc::new(move |_| vec![vec![(0.0, 0.0); n]; n]),
+        _ => Rc::new(move |_| vec![vec![(f64::NAN, 0.0); n]; n]),
+    }
+}
+
+fn any_params(rng: &mut Rng) -> (f64, f64, usize) {
+    let tol = match rng.below(12) { 0 => 0.0, 1 => 1.0, 2 => f64::INFINITY, 3 => f64::NAN, 4 => 1e-8, 5 => -1.0, _ => *rng.pick(&TOLS) };
+    let delta = match rng.below(12) { 0 => 0.0, 1 => 0.5, 2 => 1.0 / 1048576.0, _ => *rng.pick(&[1e-8, 1e-8, 1e-7, 1e-6, 1e-5]) };
+    let kmax = match rng.below(6) { 0 => rng.usize(0, 2), 1 => KCAP, _ => rng.usize(0, KCAP) };
+    (tol, delta, kmax)
+}
+fn any_coord(rng: &mut Rng) -> f64 {
+    match rng.below(8) { 0 => 0.0, 1 => rng.int(-3, 3) as f64, 2 => rng.logmag(1e-3, 1e3), _ => rng.range(-3.0, 3.0) }
+}
+
+fn any_case(rng: &mut Rng, st: &mut Stats, kind: Kind) {
+    let (tol, delta, kmax) = any_params(rng);
+    match kind {
+        Kind::R => {
+            let id = rng.below(NFAIL_R);
+            let (name, f) = any_fn_r(id, rng.range(-2.0, 2.0), rng.range(-2.0, 2.0));
+            st.set_insert("any_families", format!("{}:{}", kind.name(), name.split('[').next().unwrap_or("")));
+            let p = Prob { name, n: 1, body: Body::R(f) };
+            let g = vec![any_coord(rng)];
+            judge(st, rng, &p, &Cfg { tol, delta, guess: g }, kmax, None);
+        }
+        Kind::C => {
+            let id = rng.below(NFAIL_C);
+            let (name, f) = any_fn_c(id, (rng.range(-2.0, 2.0), rng.range(-2.0, 2.0)), (rng.range(-2.0, 2.0), rng.range(-2.0, 2.0)));
+            st.set_insert("any_families", format!("{}:{}", kind.name(), name.split('[').next().unwrap_or("")));
+            let p = Prob { name, n: 1, body: Body::C(f) };
+            let g = vec![any_coord(rng), if rng.chance(0.3) { 0.0 } else { any_coord(rng) }];
+            judge(st, rng, &p, &Cfg { tol, delta, guess: g }, kmax, None);
+        }
+        Kind::SR | Kind::SRJ => {
+            let n = rng.usize(1, 6);
+            let fam = rng.below(8);
+            let coup = if rng.bool() { 0.0 } else { rng.sym() * 0.3 };
+            let (name, f): (String, FnSR) = match fam {
+                0..=3 => {
+                    // componentwise lift of a scalar function, weakly coupled to the next coordinate
+                    let ids: Vec<u64> = if rng.bool() { let id = rng.below(NFAIL_R); vec![id; n] } else { (0..n).map(|_| rng.below(NFAIL_R)).collect() };
+                    let (a, b) = (rng.range(-2.0, 2.0), rng.range(-2.0, 2.0));
+                    let fs: Vec<(String, FnR)> = ids.iter().map(|id| any_fn_r(*id, a, b)).collect();
+                    let nm = format!("lift[{} coupling={:?}]", fs.iter().map(|t| t.0.clone()).collect::<Vec<_>>().join(";"), coup);
+                    (nm, Rc::new(move |x: &[f64]| (0..n).map(|i| (fs[i].1)(x[i]) + if coup != 0.0 { coup * x[(i + 1) % n] } else { 0.0 }).collect()))
+                }
+                4 => {
+                    // all but the last residual vanish at r, the last is NaN left of 0 (ln)
+                    let r: Vec<f64> = (0..n).map(|_| rng.int(-2, 2) as f64).collect();
+                    let r2 = r.clone();
+                    (format!("nan-tail[a*(x_i-r_i) (i<n-1), ln(x_(n-1)); r={:?}]", r), Rc::new(move |x: &[f64]| (0..n).map(|i| if i + 1 < n { 2.0 * (x[i] - r2[i]) } else { x[i].ln() }).collect()))
+                }
+                5 => ("singular[F_i = sum_j x_j - 1]".to_string(), Rc::new(move |x: &[f64]| { let s: f64 = x.iter().sum(); vec![s - 1.0; n] })),
+                6 => ("zero[F = 0]".to_string(), Rc::new(move |_: &[f64]| vec![0.0; n])),
+                _ => {
+                    let r: Vec<f64> = (0..n).map(|_| rng.int(-4, 4) as f64 * 0.5).collect();
+                    let d: Vec<f64> = (0..n).map(|_| *rng.pick(&[1.0, 2.0, -4.0, 0.5])).collect();
+                    let nm = format!("linear[F_i = d_i (x_i - r_i) + 0.25 (x_(i+1) - r_(i+1)); d={:?} r={:?}]", d, r);
+                    (nm, Rc::new(move |x: &[f64]| (0..n).map(|i| d[i] * (x[i] - r[i]) + if n > 1 { 0.25 * (x[(i + 1) % n] - r[(i + 1) % n]) } else { 0.0 }).collect()))
+                }
+            };
+            st.set_insert("any_families", format!("{}:{}", kind.name(), ["lift", "lift", "lift", "lift", "nan-tail", "singular", "zero", "linear"][fam as usize]));
+            let jm = rng.below(6);
+            let jac = if kind == Kind::SRJ { Some(any_jac_r(f.clone(), jm, n)) } else { None };
+            let name = if kind == Kind::SRJ { format!("{} jac-mode={}", name, jm) } else { name };
+            let mut guess: Vec<f64> = (0..n).map(|_| any_coord(rng)).collect();
+            if fam == 4 { for i in 0..n { guess[i] = if i + 1 < n { if rng.chance(0.7) { guess[i].round().clamp(-2.0, 2.0) } else { guess[i] } } else { -guess[i].abs() - 0.5 }; } }
+            let p = Prob { name, n, body: Body::SR(f, jac) };
+            judge(st, rng, &p, &Cfg { tol, delta, guess }, kmax, None);
+        }
+        Kind::SC | Kind::SCJ => {
+            let n = rng.usize(1, 6);
+            let fam = rng.below(8);
+            let coup = if rng.bool() { 0.0 } else { rng.sym() * 0.3 };
+            let (name, f): (String, FnSC) = match fam {
+                0..=3 => {
+                    let ids: Vec<u64> = if rng.bool() { let id = rng.below(NFAIL_C); vec![id; n] } else { (0..n).map(|_| rng.below(NFAIL_C)).collect() };
+                    let (a, b) = ((rng.range(-2.0, 2.0), rng.range(-2.0, 2.0)), (rng.range(-2.0, 2.0), rng.range(-2.0, 2.0)));
+                    let fs: Vec<(String, FnC)> = ids.iter().map(|id| any_fn_c(*id, a, b)).collect();
+                    let nm = format!("lift[{} coupling={:?}]", fs.iter().map(|t| t.0.clone()).collect::<Vec<_>>().join(";"), coup);
+                    (nm, Rc::new(move |x: &[C2]| (0..n).map(|i| { let v = (fs[i].1)(x[i]); if coup != 0.0 { cadd(v, cscale(x[(i + 1) % n], coup)) } else { v } }).collect()))
+                }
+                4 => {
+                    let r: Vec<C2> = (0..n).map(|_| (rng.int(-2, 2) as f64, rng.int(-2, 2) as f64)).collect();
+                    let r2 = r.clone();
+                    (format!("nan-tail[2*(z_i-r_i) (i<n-1), (ln(re z),im z) last; r={:?}]", r), Rc::new(move |x: &[C2]| (0..n).map(|i| if i + 1 < n { cscale(csub(x[i], r2[i]), 2.0) } else { (x[i].0.ln(), x[i].1) }).collect()))
+                }
+                5 => ("singular[F_i = sum_j z_j - 1]".to_string(), Rc::new(move |x: &[C2]| { let s = x.iter().fold((0.0, 0.0), |s, z| cadd(s, *z)); vec![csub(s, (1.0, 0.0)); n] })),
+                6 => ("zero[F = 0]".to_string(), Rc::new(move |_: &[C2]| vec![(0.0, 0.0); n])),
+                _ => {
+                    let r: Vec<C2> = (0..n).map(|_| (rng.int(-4, 4) as f64 * 0.5, rng.int(-4, 4) as f64 * 0.5)).collect();
+                    let d: Vec<C2> = (0..n).map(|_| *rng.pick(&[(1.0, 0.0), (0.0, 2.0), (-4.0, 0.0), (0.5, 0.5)])).collect();
+                    let nm = format!("linear[F_i = d_i (z_i - r_i) + 0.25 (z_(i+1) - r_(i+1)); d={:?} r={:?}]", d, r);
+                    (nm, Rc::new(move |x: &[C2]| (0..n).map(|i| { let v = cmul(d[i], csub(x[i], r[i])); if n > 1 { cadd(v, cscale(csub(x[(i + 1) % n], r[(i + 1) % n]), 0.25)) } else { v } }).collect()))
+                }
+            };
+            st.set_insert("any_families", format!("{}:{}", kind.name(), ["lift", "lift", "lift", "lift", "nan-tail", "singular", "zero", "linear"][fam as usize]));
+            let jm = rng.below(6);
+            let jac = if kind == Kind::SCJ { Some(any_jac_c(f.clone(), jm, n)) } else { None };
+            let name = if kind == Kind::SCJ { format!("{} jac-mode={}", name, jm) } else { name };
+            let mut guess: Vec<C2> = (0..n).map(|_| (any_coord(rng), if rng.chance(0.3) { 0.0 } else { any_coord(rng) })).collect();
+            if fam == 4 { for i in 0..n { guess[i] = if i + 1 < n { if rng.chance(0.7) { (guess[i].0.round().clamp(-2.0, 2.0), guess[i].1.round().clamp(-2.0, 2.0)) } else { guess[i] } } else { (-guess[i].0.abs() - 0.5, guess[i].1) }; } }
+            let p = Prob { name, n, body: Body::SC(f, jac) };
+            judge(st, rng, &p, &Cfg { tol, delta, guess: flat_c(&guess) }, kmax, None);
+        }
+    }
+}
+
+// ------------------------------------------------------------------ enumerated boundary cases: stopping quantity == tol exactly
+/// Linear functions with dyadic data so that every operation of the first iteration is exact and the
+/// stopping quantity equals the tolerance exactly ("<=" must stop). Independent of the seed.
+fn boundary_cases(st: &mut Stats) -> u64 {
+    let mut rng = Rng::new(0xB0DA);
+    let delta = 1.0 / 1024.0;
+    let mut count = 0u64;
+    // residual vectors [0,..,0,NaN] (NaN not in the first slot): the stopping test must not pass
+    for n in 2..=3usize {
+        for &tol in &[1e-8, 1e-4] {
+            for &kmax in &[1usize, 5] {
+                for &uj in &[false, true] {
+                    let f: FnSR = Rc::new(move |x: &[f64]| (0..n).map(|i| if i + 1 < n { 2.0 * (x[i] - 1.0) } else { x[i].ln() }).collect());
+                    let jac: Option<JacSR> = if uj { Some(Rc::new(move |x: &[f64]| (0..n).map(|i| (0..n).map(|j| if i != j { 0.0 } else if i + 1 < n { 2.0 } else { 1.0 / x[i] }).collect()).collect())) } else { None };
+                    let mut g = vec![1.0; n];
+                    g[n - 1] = -1.0;
+                    let p = Prob { name: "nan-residual[F_i = 2(x_i-1) (i<n-1), F_(n-1) = ln(x_(n-1))]".to_string(), n, body: Body::SR(f, jac) };
+                    judge(st, &mut rng, &p, &Cfg { tol, delta: 1e-7, guess: g.clone() }, kmax, None);
+                    let f: FnSC = Rc::new(move |x: &[C2]| (0..n).map(|i| if i + 1 < n { cscale(csub(x[i], (1.0, 0.0)), 2.0) } else { (x[i].0.ln(), x[i].1) }).collect());
+                    let jac: Option<JacSC> = if uj { Some(Rc::new(move |x: &[C2]| (0..n).map(|i| (0..n).map(|j| if i != j { (0.0, 0.0) } else if i + 1 < n { (2.0, 0.0) } else { (1.0 / x[i].0, 0.0) }).collect()).collect())) } else { None };
+                    let gc: Vec<C2> = g.iter().map(|v| (*v, 0.0)).collect();
+                    let p = Prob { name: "nan-residual[F_i = 2(z_i-1) (i<n-1), F_(n-1) = (ln(re z),im z)]".to_string(), n, body: Body::SC(f, jac) };
+                    judge(st, &mut rng, &p, &Cfg { tol, delta: 1e-7, guess: flat_c(&gc) }, kmax, None);
+                    count += 2;
+                }
+            }
+        }
+    }
+    for &r0 in &[0.0, 1.5, -3.0] {
+        for &pw in &[14i32, 20, 30] {
+            let tol = 2f64.powi(-pw);
+            for &s in &[0.5, 1.0, -4.0] {
+                for &sgn in &[1.0, -1.0] {
+                    for &kmax in &[1usize, 3] {
+                        // real scalar
+                        let f: FnR = Rc::new(move |x| s * (x - r0));
+                        let p = Prob { name: format!("boundary:s(x-r)[s={:?} r={:?}]", s, r0), n: 1, body: Body::R(f) };
+                        judge(st, &mut rng, &p, &Cfg { tol, delta, guess: vec![r0 + sgn * tol] }, kmax, None);
+                        count += 1;
+                        // complex scalar: offset along the real or the imaginary axis
+                        for &im in &[false, true] {
+                            let rc = (r0, 0.5);
+                            let f: FnC = Rc::new(move |z| cscale(csub(z, rc), s));
+                            let g = if im { (rc.0, rc.1 + sgn * tol) } else { (rc.0 + sgn * tol, rc.1) };
+                            let p = Prob { name: format!("boundary:s(z-r)[s={:?} r={:?}]", s, rc), n: 1, body: Body::C(f) };
+                            judge(st, &mut rng, &p, &Cfg { tol, delta, guess: vec![g.0, g.1] }, kmax, None);
+                            count += 1;
+                        }
+                        // systems: F_i = d_i (x_i - r_i); residual inf-norm == tol exactly at the guess
+                        for n in 1..=3usize {
+                            for lead in 0..n {
+                                let d: Vec<f64> = (0..n).map(|i| if i == 0 { s } else { 2.0 }).collect();
+                                let r: Vec<f64> = (0..n).map(|i| r0 + i as f64 * 0.5).collect();
+                                let w: Vec<f64> = (0..n).map(|i| if i == lead { 1.0 } else { 0.25 }).collect();
+                                let guess: Vec<f64> = (0..n).map(|i| r[i] + sgn * w[i] * tol / d[i]).collect();
+                                for &uj in &[false, true] {
+                                    let (d1, r1, d2) = (d.clone(), r.clone(), d.clone());
+                                    let f: FnSR = Rc::new(move |x: &[f64]| (0..n).map(|i| d1[i] * (x[i] - r1[i])).collect());
+                                    let jac: Option<JacSR> = if uj { Some(Rc::new(move |_: &[f64]| (0..n).map(|i| (0..n).map(|j| if i == j { d2[i] } else { 0.0 }).collect()).collect())) } else { None };
+                                    let p = Prob { name: format!("boundary:diag[d={:?} r={:?}]", d, r), n, body: Body::SR(f, jac) };
+                                    judge(st, &mut rng, &p, &Cfg { tol, delta, guess: guess.clone() }, kmax, None);
+                                    count += 1;
+                                    // complex: d_i real or imaginary, offsets rotated accordingly
+                                    let dc: Vec<C2> = (0..n).map(|i| if i % 2 == 0 { (d[i], 0.0) } else { (0.0, d[i]) }).collect();
+                                    let rc: Vec<C2> = r.iter().map(|v| (*v, -0.5)).collect();
+                                    let gc: Vec<C2> = (0..n).map(|i| (rc[i].0 + sgn * w[i] * tol / d[i], rc[i].1)).collect();
+                                    let (dc1, rc1, dc2) = (dc.clone(), rc.clone(), dc.clone());
+                                    let f: FnSC = Rc::new(move |x: &[C2]| (0..n).map(|i| cmul(dc1[i], csub(x[i], rc1[i]))).collect());
+                                    let jac: Option<JacSC> = if uj { Some(Rc::new(move |_: &[C2]| (0..n).map(|i| (0..n).map(|j| if i == j { dc2[i] } else { (0.0, 0.0) }).collect()).collect())) } else { None };
+                                    let p = Prob { name: format!("boundary:cdiag[d={:?} r={:?}]", dc, rc), n, body: Body::SC(f, jac) };
+                                    judge(st, &mut rng, &p, &Cfg { tol, delta, guess: flat_c(&gc) }, kmax, None);
+                                    count += 1;
+                                }
+                            }
+                        }
+                    }
+                }
+            }
+        }
+    }
+    count
+}
+
+// ------------------------------------------------------------------ entry point
+const KINDS: [Kind; 6] = [Kind::R, Kind::C, Kind::SR, Kind::SRJ, Kind::SC, Kind::SCJ];
+
+pub fn run(ctx: &Ctx) -> Report {
+    let units = ctx.vol(6000, 150_000);
+    let stats = par_run(ctx, TAG, units + 1, |u, rng, st| {
+        if u == 0 {
+            let c = boundary_cases(st);
+            st.add("boundary_cases", c);
+            return;
+        }
+        for _ in 0..4 {
+            for &kind in &KINDS {
+                // certified success case
+                let pl = match kind {
+                    Kind::R => planted_scalar_real(rng),
+                    Kind::C => planted_scalar_cplx(rng),
+                    Kind::SR => planted_system(rng, false, false),
+                    Kind::SRJ => planted_system(rng, false, true),
+                    Kind::SC => planted_system(rng, true, false),
+                    Kind::SCJ => planted_system(rng, true, true),
+                };
+                match pl { Some(pl) => { run_planted(st, rng, &pl); } None => st.count("skipped:generator") }
+                // any-function case
+                any_case(rng, st, kind);
+            }
+        }
+    });
+    let mut rep = Report::new(stats,
+        "each random unit: 4 x 6 entry points x {one certified planted-root case, one any-function case}. Certified: function family with planted simple root \
+         (real/complex polynomials in product or Horner form, exp/cos/z^2/z^3 equations, a(x-r)+eps(phi(x)-phi(r)), strictly row-dominant systems A x + eps g(x) of dimension 1..6 with g in \
+         sin/tanh/atan/exp/squares/cubes/products), largest ball with Kantorovich h<=1/4 (finite-difference and rounding error included), guess anywhere in the ball (incl. centre and boundary), \
+         tol in 1e-12..1e-4 (raised until a certificate exists), limit = certified iterations (+ slack up to 50). Any-function: root-free, non-differentiable, discontinuous, constant, NaN/inf-producing, \
+         cycling, slowly converging, singular and linear functions, tol incl. 0/NaN/inf/negative, delta incl. 0, limit 0..50. Unit 0 enumerates dyadic boundary cases (stopping quantity == tol). \
+         A case is non-trivial when a certified demand was checked from a guess != root or when at least one (limit k, limit k+1) pair was compared by value against the model step; \
+         distinct = hash of function description, configuration and limit.");
+    rep.assumptions = vec![
+        "user closures are deterministic, do not panic and return vectors/matrices of the right shape".into(),
+        "the derivative bounds m1, M1, M2 of the planted families are computed analytically on the guess ball; evaluation noise of the closures is bounded by standard gamma_k*u models".into(),
+        "equality of the stopping quantity with the tolerance counts as 'criterion met' (anchor: |dx| <= tol, ||F||inf <= tol)".into(),
+        "a residual vector containing NaN does not satisfy ||F||inf <= tol".into(),
+        "when the model Newton step is non-finite or ill-conditioned (kappa > 1e6, total cancellation in the difference quotient) any carried value is accepted; Ok with a non-finite point is then only counted (observed:*)".into(),
+    ];
+    rep.min_nontrivial = if ctx.quick() { 5_000 } else { 100_000 };
+    let mut ex = J::obj();
+    ex.set("exhaustive_parts", J::Arr(vec![J::s("unit 0: residual [0,..,0,NaN] at the guess, n=2..3 x tol in {1e-8,1e-4} x limit in {1,5} x 4 system entry points"), J::s("unit 0: boundary cases with stopping quantity == tol exactly: 3 roots x 3 tolerances x 3 slopes x 2 signs x 2 limits x {f64, Cmplx re/im offsets, real+complex diagonal systems n=1..3 x leading index x {solve, solve_jacobian}}")]));
+    ex.set("entry_points", J::Arr(KINDS.iter().map(|k| J::s(&k.name())).collect()));
+    rep.extra = ex;
+    rep
 }
